@@ -161,7 +161,8 @@ def c12(ctx):
                 "every step; 'encode, wait, poll' invariant in every reachable machine state; code: sentences "
                 "GENERATED BY TLC (-simulate, full value domain, 1-16 interleaved channels, timeouts {0,1,5}) "
                 "replayed into the real scanner with the mock clock and compared with the intended reports by TLC; "
-                "real encodings in both byte orders + wait + poll after random prior traffic. "
+                "ALL sentences 'selection + k further feeds/polls/ticks' (k = 3, thorough 4) from the complete transition "
+                "graph of the composition; real encodings in both byte orders + wait + poll after random prior traffic. "
                 "Non-trivial = distinct (call, reports) pairs with a report.")
 
 
